@@ -134,7 +134,60 @@ def judge_program(plan, recs_list):
     return res
 
 
+RAW_MOD = '''import dds
+import rawlog2
+SHAPE = (3, 4)
+def build():
+    rawlog2.ran("build")
+    return SHAPE[0] * SHAPE[1]
+'''
+RAW_RUN2 = '''import dds, sys, json, importlib
+dds.accept_module("rawpk2")
+dds.set_store("local", internal_dir=sys.argv[1] + "/i", data_dir=sys.argv[1] + "/d")
+import rawlog2
+m = importlib.import_module("rawpk2." + sys.argv[2])
+r = dds.keep("/built", m.build)
+print("@@" + json.dumps({"value": r, "ran": rawlog2.LOG}))
+'''
+
+
+def run_raw(rep):
+    """Outside the generated grammar: the kept function mentions a module-level object that is not tracked by value (a
+    tuple); the module is then copied to another accepted module and evaluated there."""
+    import os
+    import shutil
+    import tempfile
+    base = tempfile.mkdtemp(prefix="c02raw_", dir=C.scratch_dir())
+    try:
+        os.makedirs(os.path.join(base, "rawpk2"))
+        open(os.path.join(base, "rawpk2", "__init__.py"), "w").write("")
+        open(os.path.join(base, "rawlog2.py"), "w").write("LOG = []\ndef ran(t):\n    LOG.append(t)\n")
+        open(os.path.join(base, "run.py"), "w").write(RAW_RUN2)
+        for mn in ("m1", "m1copy"):
+            open(os.path.join(base, "rawpk2", mn + ".py"), "w").write(RAW_MOD)
+        outs = []
+        for mn in ("m1", "m1", "m1copy"):
+            env = C.impl_env()
+            env["PYTHONPATH"] = C.REPO + os.pathsep + base
+            rc, out = C.sh([C.PY, os.path.join(base, "run.py"), base, mn], env=env, cwd=base, timeout=120)
+            line = [l for l in out.splitlines() if l.startswith("@@")]
+            if not line:
+                rep.violation("harness-error:c02raw", "raw scenario could not be run: " + out[-300:], {"out": out[-800:]}, no_input=True)
+                return
+            outs.append(json.loads(line[-1][2:]))
+        rep.evaluations += 2
+        if outs[1]["ran"]:
+            rep.violation("recomputed:unchanged", "raw scenario: an unchanged re-evaluation from a fresh process executed the kept body", {"outs": outs})
+        if outs[2]["ran"]:
+            rep.violation("recomputed:move-module:untracked-object-name", "the code was copied to another accepted module: the kept body ran again because it "
+                          "mentions a module-level object that is hashed by its canonical name (which contains the module path)",
+                          {"module": RAW_MOD, "copied_to": "rawpk2.m1copy", "outs": outs})
+    finally:
+        shutil.rmtree(base, ignore_errors=True)
+
+
 def run(rep, tier, seed, proof_ok):
+    run_raw(rep)
     n_prog = 6 if tier == "quick" and proof_ok else 60
     n_edits = 2 if tier == "quick" else 8
     rep.rule = (f"{n_prog} random pipelines; for each: unchanged re-evaluation, fresh process, entry-style switch (data functions), and "
